@@ -2,7 +2,7 @@ use crate::error::ConvertError;
 use chrono::NaiveDate;
 use rust_decimal::Decimal;
 use serde::Deserialize;
-use std::collections::HashMap;
+use std::collections::{HashMap, HashSet};
 
 /// Equity awards data parsed from Schwab exports
 #[derive(Debug, Clone)]
@@ -147,6 +147,9 @@ pub fn parse_awards_json(json_content: &str) -> Result<AwardsData, ConvertError>
     let awards_json: AwardsJson = serde_json::from_str(json_content)?;
 
     let mut fmv_map = HashMap::new();
+    // Keys whose value comes from vest-specific fields: a fallback price found in another
+    // entry for the same symbol and date must not replace it, whatever the file order.
+    let mut vest_keys: HashSet<(String, NaiveDate)> = HashSet::new();
 
     for award in awards_json.transactions {
         let parent_date = parse_award_date(&award.date)?;
@@ -178,6 +181,7 @@ pub fn parse_awards_json(json_content: &str) -> Result<AwardsData, ConvertError>
                 if is_vest {
                     // Insert all vest FMVs found (multiple grants may vest on different dates)
                     fmv_map.insert((symbol_upper.clone(), date), fmv);
+                    vest_keys.insert((symbol_upper.clone(), date));
                     inserted = true;
                 }
 
@@ -187,7 +191,10 @@ pub fn parse_awards_json(json_content: &str) -> Result<AwardsData, ConvertError>
             }
         }
 
-        if !inserted && let Some((date, fmv)) = fallback {
+        if !inserted
+            && let Some((date, fmv)) = fallback
+            && !vest_keys.contains(&(symbol_upper.clone(), date))
+        {
             fmv_map.insert((symbol_upper, date), fmv);
         }
     }
